@@ -21,6 +21,11 @@ def generate(tier, rng):
             c.op(e.id, 'collect', 'collect/' + pl)
             c.op(e.id, 'rev', 'rev/' + pl)
             c.op(e.id, 'count', 'count/' + pl)
+    from .. import strcorpus
+    e = strcorpus.clash_enum('C04', ['EnumIter', 'EnumCount'], ['iter', 'count'], kinds=(('unit', []), ('tuple', ['u8']), ('named', ['i32'])))
+    c.add(e)
+    for op in ('collect', 'rev', 'count'):
+        c.op(e.id, op, op + '/clash')
     # one large enum (more variants than a u8 can count)
     e = itercorpus.make_enum('c04big', 'EnC04big', 300, 'alternating', derives=['EnumIter', 'EnumCount'], feats=['iter', 'count'])
     c.add(e)
